@@ -4,7 +4,7 @@ import ast
 from engine.index import norm, walk_own
 from engine.cfg import cfg_of
 from engine.defuse import defuse_of, attr_accesses
-from .common import calls_named
+from .common import calls_named, before
 
 EXPLANATION = (
     "Static rules over dispatch.py. Decides: (R1) key normalisation agreement: every store, delete, lookup and membership test on "
@@ -30,7 +30,7 @@ def _name_kind(fi, expr, at):
         # idiom: if isinstance(k, type): k = k.__name__   dominating the use
         for n in walk_own(fi.node):
             if isinstance(n, ast.If) and norm(n.test) == "isinstance(%s, type)" % expr.id and len(n.body) == 1 and norm(n.body[0]) == "%s = %s.__name__" % (expr.id, expr.id) \
-                    and not n.orelse and n.lineno < expr.lineno:
+                    and not n.orelse and before(fi, n, expr):
                 return True, "normalised by `if isinstance(%s, type): %s = %s.__name__`" % (expr.id, expr.id, expr.id)
         # general form: every definition of the variable that reaches the use is X.__name__, or is a value V bound on a path
         # on which `isinstance(V, type)` is false (so V is not a class), or is the variable itself after the idiom
